@@ -3,7 +3,7 @@ import gv
 
 PROP = "C15"
 REQ_PROPS = ["GV.Props.Props_C15"]
-REQ_RUN = ["GV.Codec.Run"]
+REQ_RUN = ["GV.Codec.Run2"]
 
 TRUSTED = [
     "Coq 8.16.1 kernel (coqc; vm_compute used to run the model; no native_compute)",
@@ -15,7 +15,7 @@ TRUSTED = [
 def run(tier, seed):
     chk = gv.Check(PROP, tier, seed, level="proof")
     proof = gv.proof_status(PROP, REQ_PROPS)
-    ncases = 1800 if tier == "quick" else 30000
+    ncases = 2100 if tier == "quick" else 30000
     cases = []
     profiles = ["dev"] if tier == "quick" else ["dev", "relarith"]
     for prof in profiles:
